@@ -92,11 +92,11 @@ def dump(module, cfg_body, scname, sc, expandable, timeout=900):
             line = raw.decode(errors='replace')
             if line.startswith('<<"EDGE", "'):
                 d = json.loads(json.loads(line[len('<<"EDGE", '):line.rindex('>>')]))
-                tkey = json.dumps(d['t'], sort_keys=True)
+                tkey = json.dumps(d.get('tid', d['t']), sort_keys=True)
                 if not g.states and 'ff' not in d:
                     raise common.MachineryError('edge before initial state')
                 if 'ff' in d:                      # small models print the full source state
-                    fi = disc(d['ff'], json.dumps(d['ff'], sort_keys=True))
+                    fi = disc(d['ff'], json.dumps(d.get('fid', d['ff']), sort_keys=True))
                     ti = disc(d['t'], tkey)
                 else:
                     ti = disc(d['t'], tkey)
